@@ -30,7 +30,7 @@ check("C01", "translation_validation",
       "Every explored program (repository test corpus + programs enumerated/sampled by TLC from spec/ProgGen.tla) is translated by the real "
       "library under both optimizer profiles; TLC runs the reference interpreter spec/PySem.tla on EVERY input row and compares every "
       "return bit that wrap-around arithmetic determines with the row sets of the library's expression list (spec/BoolSem.tla).",
-      TB + "; typing rules in PySem transcribe the documentation; Qfixed operands of different layouts and a few constructs are skipped as unmodelled (counted in the evidence)",
+      TB + "; typing rules in PySem transcribe the documentation; a few constructs are skipped as unmodelled (counted in the evidence); refinement bindings in the same run: spec/BitBlast.tla (operators), spec/AstPasses.tla (ReplaceMultiTargetAssign), spec/Trace_Passes.tla (every pass keeps the meaning)",
       "TLA+ reference interpreter (PySem) evaluated by TLC on all inputs of TLC-generated programs", "DESIGN.md 5 C01", "pysem")
 check("C02", "model_checking",
       "Every compile (program x {default, fast} x {uncompute on, off}) is recorded; TLC runs the recorded gate list on all 2^n inputs at once "
@@ -111,8 +111,9 @@ check("C17", "translation_validation",
       TB + "; harness/readers/bexp.py", "TLC-enumerated invocations + TLA+ boolean semantics", "DESIGN.md 5 C17", "cli")
 check("C18", "translation_validation",
       "to_bqm is run against a recording stand-in for pyqubo; TLC evaluates the recorded model tree's energy on every assignment of inputs and "
-      "auxiliaries and compares ground states with the minimisers of the function; decode_samples is checked bit by bit.",
-      TB + "; pyqubo is NOT installed: the claim is about the tree qlasskit builds; penalty polynomials quoted from pyqubo's documentation", "recording stand-in + TLA+ energy evaluation", "DESIGN.md 5 C18", "bqm")
+      "auxiliaries and compares ground states with the minimisers of the function; decode_samples is checked bit by bit. The transcribed export "
+      "(spec/BQM.tla, model-checked by MC_BQM on every ExprGen tree) must predict the recorded tree (refinement binding, Trace_BQM).",
+      TB + "; pyqubo is NOT installed: the claim is about the tree qlasskit builds; penalty polynomials quoted from pyqubo's documentation", "recording stand-in + TLA+ energy evaluation on all assignments by TLC + TLA+ refinement model of the export", "DESIGN.md 5 C18", "bqm")
 
 manifest = {
     "version": 1,
@@ -136,7 +137,7 @@ manifest = {
          "kind_free_text": "spec/Trace_Gates.tla over Circuit / QSim"},
         {"name": "algo", "path": "/verif/harness/drivers/c15.py", "serves_properties": ["C15", "C16"], "kind_free_text": "spec/Trace_Algo.tla"},
         {"name": "cli", "path": "/verif/harness/drivers/c17.py", "serves_properties": ["C17"], "kind_free_text": "spec/Trace_C17.tla"},
-        {"name": "bqm", "path": "/verif/harness/drivers/c18.py", "serves_properties": ["C18"], "kind_free_text": "spec/Trace_C18.tla"},
+        {"name": "bqm", "path": "/verif/harness/drivers/c18.py", "serves_properties": ["C18"], "kind_free_text": "spec/Trace_C18.tla (contract) + spec/BQM.tla, MC_BQM, Trace_BQM (refinement)"},
     ],
     "checks": [C[k] for k in sorted(C)],
     "not_applicable": [],
